@@ -26,7 +26,8 @@ def opDistance (K : Type) [ScalarT K] [Wire K] (op : String) : P String := do
       return "ok " ++ renderArr (mahalanobis L).toArray
   | "mahalquad" => do
       let x := Vec.ofArray (← arr K d) d; let y := Vec.ofArray (← arr K d) d; finish
-      return "ok " ++ Wire.render (quadForm (mahalanobis L).memo (vsub y x))
+      let Ms := (mahalanobis L).store
+      return "ok " ++ Wire.render (quadForm (Mat.ofStore Ms) (vsub y x))
   | "embdist" => do
       let x := Vec.ofArray (← arr K d) d; let y := Vec.ofArray (← arr K d) d; finish
       return "ok " ++ Wire.render (euclid (transform L x) (transform L y))
@@ -126,10 +127,12 @@ def opPsd (op : String) : P String := do
         | .error e => s!"err {e.name}"
   | "cfm_eig" => do
       let d ← nat; let V := Mat.ofArray (← arr Float (d*d)) d d; let w := Vec.ofArray (← arr Float d) d; finish
-      return "ok " ++ renderArr (mahalanobis (componentsFromEig V w).memo).toArray
+      let Ls := (componentsFromEig V w).store
+      return "ok " ++ renderArr (mahalanobis (Mat.ofStore Ls)).toArray
   | "cfm_diag" => do
       let d ← nat; let m := Vec.ofArray (← arr Float d) d; finish
-      return "ok " ++ renderArr (mahalanobis (componentsFromDiag m).memo).toArray
+      let Ls := (componentsFromDiag m).store
+      return "ok " ++ renderArr (mahalanobis (Mat.ofStore Ls)).toArray
   | "pinv_eig" => do
       let d ← nat; let w := Vec.ofArray (← arr Float d) d; let V := Mat.ofArray (← arr Float (d*d)) d d
       let tol ← scalar Float; finish
@@ -255,6 +258,30 @@ def opWiring : P String := do
       | .chunks a b => s!"ok chunks {a} {b}"
       | .knnTriplets a b => s!"ok knn {a} {b}"
 
+/-- C09 ops (Float twin) -/
+def opClosedForm (op : String) : P String := do
+  match op with
+  | "cov" => do
+      let n ← nat; let d ← nat; let X := (Mat.ofArray (← arr Float (n*d)) n d); finish
+      return "ok " ++ renderArr (cov X).toArray
+  | "rca_inner" => do
+      let n ← nat; let d ← nat; let X := (Mat.ofArray (← arr Float (n*d)) n d)
+      let ch ← intArr n; finish
+      return "ok " ++ renderArr (innerCov X (fun i => ch.getD i.val (-1))).toArray
+  | "lfda_scatter" => do
+      let n ← nat; let d ← nat; let k ← nat
+      let X := (Mat.ofArray (← arr Float (n*d)) n d)
+      let y ← natArr n; finish
+      let cls : Fin n → Nat := fun i => y.getD i.val 0
+      let C := (y.foldl max 0) + 1
+      let sig := (Vec.store fun i => lfdaSigma X cls k i)
+      let As := (lfdaAffinity X cls (Vec.ofStore sig)).store
+      let A := Mat.ofStore As
+      let Sw := (lfdaSw X cls A C).store
+      let Sb := (lfdaSb X cls A C).store
+      return "ok " ++ renderArr ((Mat.ofStore Sw).toArray ++ (Mat.ofStore Sb).toArray)
+  | _ => throw s!"unknown op {op}"
+
 def optInt : P (Option Int) := do
   let t ← next
   if t == "none" then return none
@@ -293,6 +320,7 @@ def dispatch : P String := do
   | "sdp_check" | "cfm_eig" | "cfm_diag" | "pinv_eig" | "init_metric" => opPsd op
   | "pairs" | "chunks" | "knn_class" | "knn_clip" => opConstraints op
   | "form" => opForm
+  | "cov" | "rca_inner" | "lfda_scatter" => opClosedForm op
   | "wiring" => opWiring
   | "check_input" => opCheckInput
   | "calib" => opCalib
